@@ -26,7 +26,7 @@ LIST_INT = {'list_i8': (-128, [5, -128, 127]), 'list_u8': (0, [200, 128, 255]),
 OTHER = ['list_float', 'list_bool', 'list_str', 'arr_str_U', 'arr_str_O', 'list_datetime', 'arr_dt64', 'arr_tsarray']
 KINDS = list(ND) + list(LIST_INT) + OTHER
 
-_STRS = ['', 'a', 'é', '日本', "q'/ ", 'x' * 40, 'a\x00b', 'Z']
+_STRS = ['', 'a', 'é', '日本', "q'/ ", 'x' * 40, 'a\x00b', 'Z', '\ufeffbom', '\ufeff']
 _DTS = [datetime.datetime(2020, 1, 2, 3, 4, 5, 500000), datetime.datetime(1899, 12, 31, 23, 59, 59, 250000),
         datetime.datetime(1904, 1, 1, 0, 0, 0), datetime.datetime(2100, 6, 1, 12, 0, 0, 750000),
         datetime.datetime(1970, 1, 1, 0, 0, 1)]
@@ -110,7 +110,7 @@ def prop_menu(mid):
             out.append((name, v, 'DoubleFloat', ('float', struct.pack('<d', v).hex())))
         out += [('b', True, 'Boolean', ('bool', True)), ('b0', False, 'Boolean', ('bool', False)),
                 ('s', 'é日本', 'String', ('str', 'é日本')), ('e', '', 'String', ('str', '')),
-                ("q'/ ", "it's", 'String', ('str', "it's"))]
+                ("q'/ ", "it's", 'String', ('str', "it's")), ('\ufeffs', '\ufeffv', 'String', ('str', '\ufeffv'))]
         return out
     if mid == 3:
         sc = [('np_i8', np.int8(-5), 'Int8'), ('np_u8', np.uint8(200), 'Uint8'), ('np_i16', np.int16(-300), 'Int16'),
@@ -193,6 +193,9 @@ def call_shapes():
         [['C*', 'g', 'a', 0, 3, 0]],
         [['C*', 'g', 'a', 0, 1, 0], C('g', 'b', 1, 1)],
         [['G', 'g', 8], C('g', 'a', 0, 1)],        # bytes property value: rejected
+        # one TdmsTimestamp instance used as a property value and changed in place (public attributes) between calls
+        [['R*'], C('g', 'a', 0, 1)],
+        [['R*']],
     ]
     return shapes
 
@@ -200,7 +203,7 @@ def call_shapes():
 def expect_rejected(shape):
     """call shapes built to be refused by the writer: duplicate paths, property values it cannot encode"""
     paths = [tuple(o[1:3]) for o in shape if o[0] in ('C', 'C*')]
-    return len(paths) != len(set(paths)) or any(o[-1] in (7, 8) for o in shape)
+    return len(paths) != len(set(paths)) or any(o[-1] in (7, 8) for o in shape if len(o) > 1)
 
 
 def shape_vacuity(counters):
@@ -234,7 +237,18 @@ def build_objects(call, assign, counters, instances=None):
     model = []
     instances = {} if instances is None else instances
     for o in call:
-        if o[0] == 'R':
+        if o[0] == 'R*':
+            from nptdms.timestamp import TdmsTimestamp
+            k = counters.get('R*', 0)
+            counters['R*'] = k + 1
+            ts = instances.get('R*')
+            if ts is None:
+                ts = instances['R*'] = TdmsTimestamp(100, 2 ** 62)
+            else:
+                ts.seconds, ts.second_fractions = 100 + k, 2 ** 62 + k
+            objs.append(RootObject(properties={'stamp': ts}))
+            model.append(('/', None, [('stamp', ts, 'TimeStamp', ('ts', 100 + k, 2 ** 62 + k))]))
+        elif o[0] == 'R':
             menu = prop_menu(o[1])
             objs.append(RootObject(properties={n: v for n, v, _t, _e in menu} if menu else None))
             model.append(('/', None, menu))
